@@ -188,8 +188,15 @@ func (c *verCase) run() {
 			sqlh.Exec(db, fmt.Sprintf(`delete from "%s" where k=?`, t), c.r.Intn(10))
 		case op < 9:
 			what = "transaction"
+			end := gen.Pick(c.r, []string{"commit", "commit", "rollback"})
 			sqlh.Exec(db, "begin")
-			sqlh.Exec(db, fmt.Sprintf(`insert into "%s" values(?,?,?)`, t), 20+c.r.Intn(5), wt, "y")
+			if end == "commit" {
+				sqlh.Exec(db, fmt.Sprintf(`insert into "%s" values(?,?,?)`, t), 20+c.r.Intn(5), wt, "y")
+			} else {
+				// no INSERT in a transaction that is rolled back: on multi-level trees its row can stay in the
+				// connection's tree (F24, dependency), which is not what this stream is about
+				sqlh.Exec(db, fmt.Sprintf(`update "%s" set b=? where k=?`, t), "y", c.r.Intn(10))
+			}
 			sqlh.Exec(db, fmt.Sprintf(`delete from "%s" where k=?`, t), c.r.Intn(10))
 			// s3db_version() in the middle of a transaction that has written: it either declines, or names
 			// exactly the rows visible right now (which are not committed anywhere yet)
@@ -203,7 +210,7 @@ func (c *verCase) run() {
 			} else {
 				c.st.Count("version_inside_transaction_declined")
 			}
-			sqlh.Exec(db, gen.Pick(c.r, []string{"commit", "commit", "rollback"}))
+			sqlh.Exec(db, end)
 		case op < 10:
 			what = "no-op statement"
 			sqlh.Exec(db, fmt.Sprintf(`update "%s" set a=? where k=?`, t), wt, 999)
